@@ -164,6 +164,10 @@ def scenarios(ctx):
         add(2, [12], ["game:1:1"], slow=1.2, api=pmg)
         add(1, [5], ["factory:0"], api=pmg)
         add(1, [8], ["killplay:0:1"], api=pmg)
+        # failures that are not a ScriptedFaultError: what an evaluator that talks to a server raises
+        add(3, [12], ["game:1:2"], slow=0.2, exc="ConnectionResetError")
+        add(1, [2], ["game:0:1"], exc=rng.choice(["EOFError", "BrokenPipeError", "TimeoutError", "OSError"]))
+        add(2, [5], ["factory:0"], exc="ConnectionRefusedError")
         # abrupt death by other signals than KILL
         add(2, [5], ["killplay:0:1"], slow=0.2, sig="TERM")
         add(1, [2], ["killplay:0:2"], sig=rng.choice(["SEGV", "ABRT", "HUP"]))
@@ -194,6 +198,8 @@ def scenarios(ctx):
                     else:
                         add(W, [rng.choice([1, 2, 5])], ["killinit:%d" % j], slow=rng.choice([0.0, 0.2]), api="play_many_games")
                 add(W, [5], ["game:%d:1" % j for j in js])
+                add(W, [rng.choice([2, 5, 8])], ["game:%d:%d" % (rng.randrange(W), rng.choice([1, 2]))], slow=0.1 if W > 1 else 0.0, exc=rng.choice(["ConnectionResetError", "EOFError", "BrokenPipeError", "TimeoutError", "OSError", "KeyError", "ConnectionRefusedError"]))
+                add(W, [rng.choice([2, 5])], ["factory:%d" % rng.randrange(W)], exc=rng.choice(["ConnectionRefusedError", "EOFError", "OSError"]))
                 add(W, [2, 3, 2], pause=rng.choice([2.0, 4.0]), compress=rng.choice([100, 1000]))
                 add(W, [rng.choice([100, 200]), 50], nofile=rng.choice([128, 200]))
                 add(W, [5, 2], ply_limit=rng.choice([0, 1]))
